@@ -125,7 +125,12 @@ pub fn check(c: &mut Case, a: &ASet, name: &str) {
     let img = match c.lib("ASetFile::serialize", || lib.serialize()) {
         None => return,
         Some(Err(e)) => {
-            c.fail("serialize_err", "serialize_err", format!("{}: serialize returned Err({}); {}", name, e, describe(a)));
+            let un = |s: &Option<String>| s.as_deref().map(crate::refs::strings::unencodable).unwrap_or(false);
+            if un(&a.meta) || a.clips.iter().any(un) || a.sets.iter().any(|s| s.iter().any(un)) {
+                c.outcome("serialize_refused_unencodable_text");
+            } else {
+                c.fail("serialize_err", "serialize_err", format!("{}: serialize returned Err({}); {}", name, e, describe(a)));
+            }
             return;
         }
         Some(Ok(b)) => b,
@@ -247,7 +252,26 @@ pub fn gen(rng: &mut Rng, miri: bool) -> ASet {
         }
         sets.push(s);
     }
-    ASet { meta, clips, sets }
+    let mut a = ASet { meta, clips, sets };
+    if rng.chance(1, 60) {
+        // one name the Shift-JIS encoder cannot express: serialize must refuse it or keep it intact
+        let u = Some(rng.pick(&crate::refs::strings::UNENCODABLE).to_string());
+        match rng.below(3) {
+            0 => a.meta = u,
+            1 => {
+                let i = rng.below(257);
+                a.clips[i] = u;
+            }
+            _ => {
+                if !a.sets.is_empty() {
+                    let i = rng.below(a.sets.len());
+                    let k = rng.below(257);
+                    a.sets[i][k] = u;
+                }
+            }
+        }
+    }
+    a
 }
 
 pub const REQUIRED: &[&str] = &["every_single_slot", "no_sets", "empty_set", "full_set", "unlabelled_set", "only_bit_31", "only_group_7", "poisoned_by_failing_calls_first", "set_count_around_256_1024_4096"];
